@@ -288,7 +288,9 @@ Definition getitem_0d (k : key) (g : group) : res :=
   | KBad => RErr EType
   end.
 
-(* BolometerCamera.__getitem__, bolometry.py:103-124: int or str only, first match by name *)
+(* BolometerCamera.__getitem__, bolometry.py:103-124: int, slice or str; first match by name.
+   (Before the fix c11e2e2 a slice key raised TypeError; that version is kept as
+   getitem_bolo_unfixed in Proofs/C15_Members.v as the record of the finding.) *)
 Definition getitem_bolo (k : key) (g : group) : res :=
   match k with
   | KInt i =>
@@ -296,7 +298,7 @@ Definition getitem_bolo (k : key) (g : group) : res :=
       | Some j => match nth_error g (Z.to_nat j) with Some m => RMem (mid m) | None => RErr EIndex end
       | None => RErr EIndex
       end
-  | KSlice _ _ => RErr EType
+  | KSlice lo hi => RMems (map mid (slice_of g lo hi))
   | KStr s => match by_name s g with m :: _ => RMem (mid m) | [] => RErr EValue end
   | KBad => RErr EType
   end.
